@@ -174,11 +174,9 @@ impl FsmExecutor {
 
     /// Shutdown of all FSMs and IO-Processors.
     pub fn shutdown(&mut self) {
-        let mut guard = self.state.lock().unwrap();
-        while !guard.processors.is_empty() {
-            if let Some(pp) = guard.processors.pop() {
-                pp.lock().unwrap().shutdown();
-            }
+        let mut processors = std::mem::take(&mut self.state.lock().unwrap().processors);
+        while let Some(pp) = processors.pop() {
+            pp.lock().unwrap().shutdown();
         }
     }
 
